@@ -1,0 +1,25 @@
+//go:build verif
+
+// Contracts for topic.go (properties C02, C04, C18). Comment-only.
+
+package pubsub
+
+// Publish: a message that fails local validation (including a duplicate) never reaches the
+// send queue; a duplicate reports success; any other validation error is returned.
+//@ func (*Topic).Publish
+//@   property C02 C04
+//@   noframe
+//@   ensures validated-once: calls((*Topic).validate) == old(calls((*Topic).validate)) + 1
+//@   ensures failed-not-sent: lastret((*Topic).validate, 1) != nil ==> calls((*validation).sendMsgBlocking) == old(calls((*validation).sendMsgBlocking))
+//@   ensures duplicate-ok: lastret((*Topic).validate, 1) != nil && lastret(errors.Is) ==> result == nil
+//@   ensures error-returned: lastret((*Topic).validate, 1) != nil && !lastret(errors.Is) ==> result == lastret((*Topic).validate, 1)
+//@   ensures sent-once: lastret((*Topic).validate, 1) == nil ==> calls((*validation).sendMsgBlocking) == old(calls((*validation).sendMsgBlocking)) + 1 &&
+//@        lastarg((*validation).sendMsgBlocking, 1) == lastret((*Topic).validate, 0) && result == lastret((*validation).sendMsgBlocking)
+
+//@ func (*Topic).AddToBatch
+//@   property C02 C04
+//@   noframe
+//@   ensures validated-once: calls((*Topic).validate) == old(calls((*Topic).validate)) + 1
+//@   ensures failed-not-added: lastret((*Topic).validate, 1) != nil ==> calls((*MessageBatch).add) == old(calls((*MessageBatch).add))
+//@   ensures added-once: lastret((*Topic).validate, 1) == nil ==> calls((*MessageBatch).add) == old(calls((*MessageBatch).add)) + 1 &&
+//@        lastarg((*MessageBatch).add, 1) == lastret((*Topic).validate, 0) && result == nil
